@@ -390,12 +390,20 @@ def forward_signatures(func, calls, args, kwargs, sig):
             raise UnknownForwards
         fwdargsvals = [rn(arg) for arg in fwdargs]
         fwdkwargsvals = dict((n, rn(arg)) for n, arg in fwdkwargs.items())
+        varargsval = rn(fwdvarargs)
+        varkwargsval = rn(fwdvarkwargs)
+        if (
+                not isinstance(varargsval, (Unknown, tuple, list))
+                or not isinstance(varkwargsval, (Unknown, dict))
+            ):
+            # the call unpacks something known that is not a plain sequence /
+            # mapping: iterating it here would run its code (and use up an
+            # iterator), or it cannot be unpacked at all
+            raise UnknownForwards
         try:
-            fwdargsvals.extend(rn(fwdvarargs))
-            fwdkwargsvals.update(rn(fwdvarkwargs))
+            fwdargsvals.extend(varargsval)
+            fwdkwargsvals.update(varkwargsval)
         except (TypeError, ValueError):
-            # the call unpacks something that is known and is not a
-            # sequence / a mapping: it cannot succeed
             raise UnknownForwards
         using_partial = wrapped_func is functools.partial
         if using_partial:
